@@ -24,7 +24,7 @@ ASSUMPTIONS = ["only index-preserving forms are treated as the same thing (the n
                "ruamel.yaml is trusted to WRITE the YAML twins"]
 
 R = "#/components/schemas/"
-POS = ["prop", "item", "addl", "union", "param", "body", "resp", "root"]
+POS = ["prop", "item", "addl", "union", "param", "body", "resp", "root", "root-item", "root-union"]
 # positions where ONE schema object of the document is turned into generated code several times
 SHARED_POS = ["pathitem-param", "comp-param", "comp-resp", "comp-resp-2status", "comp-body"]
 NULL_KINDS = ["str", "int", "num", "bool", "date", "datetime", "uuid", "model_ref", "enum_ref", "inline_object", ["array", "str"], ["array", "model_ref"]]
@@ -52,6 +52,12 @@ def holder(pos, sch, comps, required=False):
     elif pos == "root":
         comps["M"] = sch
         comps["User"] = {"type": "object", "properties": {"m": {"$ref": R + "M"}}}
+    elif pos == "root-item":      # a component that is an array: its items are met before any model's properties are resolved
+        comps["Arr"] = {"type": "array", "items": sch}
+        comps["User"] = {"type": "object", "properties": {"m": {"$ref": R + "Arr"}}}
+    elif pos == "root-union":
+        comps["Uni"] = {"oneOf": [sch, {"type": "boolean"}]}
+        comps["User"] = {"type": "object", "properties": {"m": {"$ref": R + "Uni"}}}
     elif pos in SHARED_POS:
         none = {"204": {"description": "n"}}
         extra = {}
@@ -133,6 +139,7 @@ def wrapper_forms(target):
 
 WRAP_TARGETS = {
     "Obj": {"type": "object", "properties": {"z": {"type": "integer"}}},
+    "ObjNested": {"type": "object", "properties": {"inner": {"type": "object", "properties": {"x": {"type": "integer"}}}, "kind": {"type": "string", "enum": ["k1", "k2"]}}},
     "En": {"type": "string", "enum": ["a", "b"]},
     "EnDefault": {"type": "string", "enum": ["a", "b"], "default": "b"},
     "IntDefault": {"type": "integer", "default": 20},
@@ -187,7 +194,7 @@ def cases(tier):
     for target in WRAP_TARGETS:
         for pos in POS + SHARED_POS:
             for req in ((False, True) if pos in ("prop", "param") else (False,)):
-                if pos.endswith("param") and target in ("Obj", "Arr"):
+                if pos.endswith("param") and target in ("Obj", "ObjNested", "Arr"):
                     continue
                 if pos == "root":
                     continue      # a component that is itself a bare $ref is not supported: not an equivalent notation
